@@ -26,7 +26,7 @@ func init() {
 		ID:    "C04",
 		Level: "exploration",
 		Rule: "byte strings fed to Codec.Unmarshal(*Fcall), Codec.Unmarshal(*Dir) and DecodeDir: valid encodings of all 27 kinds and structure-aware mutations of them — every length/count field (located by the reference codec's field map) replaced by " +
-			"{0,1,true+-1,0x7FFF,0x8000,0xFFFE,0xFFFF,2^31,2^32-1,rnd}, truncation at every byte, random extension, type byte swept 0-255, runs of 1/2/4/8 bytes overwritten with boundary patterns at every offset, pure random strings of 0-64 bytes, messages and directory entries carrying one string of 20 000-65 535 bytes in six flavours of valid/invalid UTF-8; " +
+			"{0,1,true+-1,0x7FFF,0x8000,0xFFFE,0xFFFF,2^31,2^32-1,rnd}, truncation at every byte, random extension, type byte swept 0-255, runs of 1/2/4/8 bytes overwritten with boundary patterns at every offset, pure random strings of 0-64 bytes, messages and directory entries carrying one string of 20 000-65 535 bytes in six flavours of valid/invalid UTF-8, Rstat/Twstat whose stat is as large as its size field allows with every enclosing count, 3000 records per process carrying ever new owner names; " +
 			"DecodeDir's size field swept over all 65536 values on a short body (that sub-space is exhaustive). Oracle: no panic (recovered in-process; a fatal error kills the child and is attributed through the case log), " +
 			fmt.Sprintf("TotalAlloc delta around the call <= %d + %d*len(input) (re-measured twice, minimum taken), and whenever decoding succeeds decode(encode(v)) == v. ", c04C, c04K) +
 			"non-trivial = input is not a canonical valid encoding and has >= 3 bytes; distinct by hash of the input",
@@ -38,7 +38,7 @@ func init() {
 		Timeout:    timeouts(12*time.Minute, 90*time.Minute),
 		MinEvals:   5000,
 		MemLimitMB: 3072,
-		Required:   []string{"outcome:error", "outcome:success-stable", "class:valid", "class:lenfield", "class:truncate", "class:extend", "class:typebyte", "class:overwrite", "class:random", "class:longstring", "class:dirsize-sweep", "decodedir_calls", "alloc_measurements"},
+		Required:   []string{"outcome:error", "outcome:success-stable", "class:valid", "class:lenfield", "class:truncate", "class:extend", "class:typebyte", "class:overwrite", "class:random", "class:longstring", "class:hugestat", "class:history", "class:dirsize-sweep", "decodedir_calls", "alloc_measurements"},
 		Run:        runC04,
 	})
 }
@@ -357,6 +357,48 @@ func runC04(w *mon.W) {
 		}
 		if body, _, err := refcodec.EncodeMap(fc); err == nil {
 			c.tryFcall(body, "longstring", true)
+		}
+	}
+	// stat records as large as their 16-bit size field allows (inner size 65533-65535: the
+	// enclosing count of Rstat/Twstat can then no longer hold "size + 2"), with the enclosing
+	// count as written by the codec and with hostile values
+	for i := 0; i < w.Scale(8, 200); i++ {
+		if !w.Mine(i) {
+			continue
+		}
+		inner := 65533 + w.Rng.Intn(3)
+		d := p9p.Dir{Type: 1, Dev: 2, Qid: p9p.Qid{Version: 3, Path: 4}, Mode: 0644, Length: 5, Name: strings.Repeat("n", inner-47-9), UID: "uid", GID: "gid", MUID: "mid"}
+		for _, fc := range []*p9p.Fcall{{Type: p9p.Rstat, Tag: 7, Message: p9p.MessageRstat{Stat: d}}, {Type: p9p.Twstat, Tag: 8, Message: p9p.MessageTwstat{Fid: 9, Stat: d}}} {
+			x, err := c.codec.Marshal(fc)
+			if err != nil {
+				continue
+			}
+			off := 3
+			if fc.Type == p9p.Twstat {
+				off += 4
+			}
+			for _, v := range []int{-1, 0xFFFF, 0xFFFE, 0, 1, 48, 49, inner} {
+				y := append([]byte{}, x...)
+				if v >= 0 {
+					y[off], y[off+1] = byte(v), byte(v>>8)
+				}
+				c.tryFcall(y, "hugestat", false)
+			}
+		}
+	}
+	// a long history of records carrying ever new owner names (whatever a decoder remembers
+	// between calls must not break it)
+	for i := 0; i < w.Scale(1, 4); i++ {
+		if !w.Mine(i) {
+			continue
+		}
+		for k := 0; k < 3000; k++ {
+			d := p9p.Dir{Name: fmt.Sprintf("n%d-%d", w.Shard, k), UID: fmt.Sprintf("owner-%d-%d", w.Shard, k), GID: fmt.Sprintf("group-%d-%d", w.Shard, k), MUID: fmt.Sprintf("m-%d-%d", w.Shard, k)}
+			sb, _ := refcodec.EncodeStat(d)
+			c.tryDir(sb, "history", true)
+			if body, _, err := refcodec.EncodeMap(&p9p.Fcall{Type: p9p.Rstat, Tag: 1, Message: p9p.MessageRstat{Stat: d}}); err == nil {
+				c.tryFcall(body, "history", true)
+			}
 		}
 	}
 	// pure random strings
